@@ -72,6 +72,7 @@ HISTORY_SKELETONS = ('single_FC', 'single_ADD', 'single_CONCATENATION',
 def _pasts():
   import json, os
   d = {'DRQ': [P.rule('.*', '*', 'DRQ')], 'SRQ8': [P.rule('.*', '*', 'SRQ8')],
+       'SRQ8_NOIO': [P.rule('^(?!$).*', '*', 'SRQ8')],
        'WO': [P.rule('.*', '*', 'WO')], 'SRQ16': [P.rule('.*', '*', 'SRQ16')]}
   for k, f in (('a8w8', 'default_a8w8_recipe.json'),
                ('a16w8', 'default_a16w8_recipe.json'),
@@ -111,9 +112,10 @@ def job_skeleton(job):
                      'symbolic statistics')
   # the same Quantizer used before with other '*' recipes (resolution must be
   # a pure function of the final rule list)
-  if prop in ('C03', 'C01', 'C08') and skel in HISTORY_SKELETONS:
+  if prop in ('C03', 'C01', 'C08', 'C02') and skel in HISTORY_SKELETONS:
     pasts = _pasts()
-    pairs = (('DRQ', 'SRQ8'), ('SRQ8', 'WO'), ('SRQ16', 'DRQ'), ('WO', 'SRQ16'))
+    pairs = (('DRQ', 'SRQ8'), ('SRQ8', 'WO'), ('SRQ16', 'DRQ'), ('WO', 'SRQ16'),
+             ('SRQ8_NOIO', 'WO'), ('SRQ8_NOIO', 'SRQ8'))
     if prop == 'C08':
       # shipped recipes only: a Quantizer that already quantized with one
       # shipped recipe is given another one
@@ -134,6 +136,7 @@ def job_skeleton(job):
 # library refuses model-wide duplicate tensor names by design, and the
 # converter gives activations buffer 0 or a buffer of their own
 NOT_CONVERTER_NORMAL_FORM = ('two_subgraphs_same_constant_name',
+                             'legacy_operator_codes',
                              'three_subgraphs_same_constant_name_nonadjacent',
                              'fc_weight_is_output',
                              'weight_shared_with_unsupported_op',
@@ -160,6 +163,76 @@ def job_blockwise(job):
 N_QUICK_DAGS = 40
 
 
+def job_written(job):
+  """C01 only, concrete: quantize() returns BYTES; the real serializer writes
+  them in the ordinary and in the large-model form (hook); they are parsed
+  again and checked (well-formedness, parameter counts, every constant's
+  buffer holds exactly what its shape and type need)."""
+  import copy, os
+  import numpy as np
+  from symx import decoder
+  from ai_edge_quantizer import quantizer as quantizer_lib
+  from tensorflow.lite.tools import flatbuffer_utils
+  fam = P.skeleton_family('quick')
+  n, cands = 0, []
+  for skel in ('fc_fc', 'chain_fc_reshape_softmax', 'two_subgraphs_independent',
+               'single_CONV_2D', 'single_EMBEDDING_LOOKUP', 'diamond'):
+    mb = fam[skel]
+    inp = flatbuffer_utils.read_model_from_bytearray(bytearray(mb))
+    rf = P.recipe_family(mb, 'quick')
+    for rname in ('shipped:default_a8w8_recipe.json',
+                  'shipped:dynamic_wi8_afp32_recipe.json',
+                  'shipped:default_af32w4float_recipe.json'):
+      for large in (False, True):
+        n += 1
+        env = dict(os.environ)
+        try:
+          if large:
+            os.environ['AI_EDGE_QUANTIZER_VERIF'] = '1'
+            os.environ['AI_EDGE_QUANTIZER_VERIF_LARGE_MODEL_THRESHOLD'] = '-1'
+          else:
+            os.environ.pop('AI_EDGE_QUANTIZER_VERIF', None)
+          q = quantizer_lib.Quantizer(mb, copy.deepcopy(rf[rname]))
+          qsvs = P.concrete_qsvs(inp, None) if q.need_calibration else None
+          try:
+            with np.errstate(all='ignore'):
+              data = bytes(q.quantize(qsvs).quantized_model)
+          except Exception:  # pylint: disable=broad-except
+            continue  # raising is allowed
+          out = flatbuffer_utils.read_model_from_bytearray(bytearray(data))
+          pr = CONCRETE['C01'](type('O', (), {'raised': None, 'model': out})())
+          for si, sg in enumerate(out.subgraphs):
+            for t in sg.tensors:
+              raw = oracles.buffer_bytes(out, t)
+              if raw is None or not len(raw):
+                continue
+              try:
+                want = decoder.expected_nbytes(t.type, t.shape)
+              except Exception:  # pylint: disable=broad-except
+                continue
+              if len(raw) != want:
+                pr.append(f'sg{si} tensor {oracles.tname(t)!r}: buffer of '
+                          f'{len(raw)} bytes for type {t.type} shape '
+                          f'{list(t.shape)} ({want} bytes)')
+        except Exception as ex:  # pylint: disable=broad-except
+          pr = [f'returned bytes do not parse: {type(ex).__name__}: {ex}']
+        finally:
+          os.environ.clear()
+          os.environ.update(env)
+        if pr:
+          cands.append(Candidate('C01.returned_bytes_parse_and_are_well_formed', {
+              'written': True, 'skeleton': skel, 'recipe': rname,
+              'form': 'large-model' if large else 'ordinary',
+              'problems': pr[:3]}))
+  st = {'paths': n, 'decisions': n, 'obligations': n,
+        'discharged': n - len(cands), 'solver_calls': 0, 'solver_time': 0.0,
+        'reached': {'pipeline': n}}
+  for c in cands:
+    c.job = job.name
+  return JobResult(job.name, st, cands[:4], [], {}, samples=[
+      f'{n} returned byte strings (ordinary / large-model form) parsed again'])
+
+
 def make_jobs(prop, tier):
   fam = P.skeleton_family(tier)
   js = [Job(f'skel:{name}', job_skeleton,
@@ -167,6 +240,7 @@ def make_jobs(prop, tier):
         if not (prop == 'C08' and name in NOT_CONVERTER_NORMAL_FORM)]
   if prop == 'C01':
     js.append(Job('skel:blockwise', job_blockwise, {}))
+    js.append(Job('skel:written', job_written, {}))
   # seeded family of random DAGs with 2-5 operators (the seed is VERIF_SEED):
   # all 1200 in the thorough tier, the first 60 in the quick tier
   dags = list(P.skeleton_family('thorough_dags'))
@@ -223,7 +297,8 @@ def _replay_history(d, final):
   enter(final)
   res = {'input_model': inp}
   out = P.Outcome()
-  out.input_model, out.recipe, out.recipe_manager = inp, final, q._recipe_manager
+  out.input_model, out.recipe_manager = inp, q._recipe_manager
+  out.recipe = [r for past in d['history'] for r in past] + list(final)
   try:
     with np.errstate(all='ignore'):
       r = q.quantize(P.concrete_qsvs(inp, d.get('stats'))
@@ -239,6 +314,12 @@ def _replay_history(d, final):
 
 def replay(prop, c):
   d = c['data']
+  if d.get('written'):
+    r = job_written(Job('skel:written', job_written, {}))
+    pr = [f"{x.data['skeleton']} x {x.data['recipe']} [{x.data['form']}]: "
+          f"{x.data['problems'][:2]}" for x in r.candidates]
+    return bool(pr), 'returned bytes: ' + (
+        r.candidates[0].data['form'] if r.candidates else ''), str(pr[:2])
   if d.get('history'):
     fam_recipe = d['recipe']
     pasts = _pasts()
